@@ -436,6 +436,9 @@ def run(ctx, rep):
     # the class block a frame is remapped in is found by the exact class lookup (both implementations)
     import lookup_rules as LR_
     LR_.check_class_lookup(fx, rep, "C01.L")
+    # the cache's answers start from the sections `parse` slices out of the file and the per-class windows cut out of them
+    LR_.check_section_slices(fx, rep, "C01.S")
+    CF.check_parse(fx, rep, "C01.Sp")
     run_controls(ctx, rep)
 
 
